@@ -96,21 +96,28 @@ class _Cfg:
 
 CFG = _Cfg()
 
-_ONE = Fraction(1)
-_ZERO = Fraction(0)
+_ONE = 1
+_ZERO = 0
+
+
+def _nz(c):
+    """Keep integer-valued coefficients as Python ints (much faster than Fraction arithmetic)."""
+    if type(c) is Fraction and c.denominator == 1:
+        return c.numerator
+    return c
 
 
 def to_frac(c):
     if isinstance(c, Fraction):
-        return c
+        return _nz(c)
     if isinstance(c, bool):
-        return Fraction(int(c))
+        return int(c)
     if isinstance(c, int):
-        return Fraction(c)
+        return c
     if isinstance(c, float):
         if c != c or c in (float("inf"), float("-inf")):
             raise ValueError("non-finite constant")
-        return Fraction(repr(c))
+        return _nz(Fraction(repr(c)))
     raise TypeError("not a number: %r" % (c,))
 
 
@@ -205,7 +212,7 @@ class Poly:
             if v == 0:
                 t.pop(m, None)
             else:
-                t[m] = v
+                t[m] = v if type(v) is int else _nz(v)
         return Poly(t)
 
     def __neg__(s):
@@ -220,7 +227,9 @@ class Poly:
             return Poly()
         if c == 1:
             return s
-        return Poly({m: v * c for m, v in s.t.items()})
+        if type(c) is int:
+            return Poly({m: v * c for m, v in s.t.items()})
+        return Poly({m: _nz(v * c) for m, v in s.t.items()})
 
     def __mul__(s, o):
         if not s.t or not o.t:
@@ -260,7 +269,7 @@ class Poly:
                 if v == 0:
                     t.pop(m, None)
                 else:
-                    t[m] = v
+                    t[m] = v if type(v) is int else _nz(v)
         if len(t) > CFG.maxterms:
             CFG.overflow_atoms += 1
             return opaque("mul", *sorted((s, o), key=lambda p: hash(p)))
@@ -271,11 +280,11 @@ class Poly:
             return opaque("div0")
         if len(s.t) == 1:
             (m, c), = s.t.items()
-            return Poly({tuple((a, -e) for a, e in m): 1 / c})
+            return Poly({tuple((a, -e) for a, e in m): _nz(Fraction(1) / c)})
         # normalise the sign/scale of the denominator so that p and -p, 2p share an atom
         lead = min(s.t.items(), key=lambda mc: _monokey(mc[0]))[1]
-        n = s.scale(1 / lead)
-        return Poly.atom(Atom("recip", (n,))).scale(1 / lead)
+        n = s.scale(Fraction(1) / lead)
+        return Poly.atom(Atom("recip", (n,))).scale(Fraction(1) / lead)
 
     def __pow__(s, n):
         assert isinstance(n, int)
